@@ -47,6 +47,7 @@ type TreeOpts struct {
 	InvalidPct           int  // chance (percent) that a block is made invalid
 	Forged               bool // include the "consistent but forged tx" kinds (bad signature, foreign chain id)
 	Linear               bool // single branch
+	Compete              bool // grow up to three branches side by side
 }
 
 func (w *World) Clone() *World {
@@ -93,7 +94,25 @@ func GenTree(t *rapid.T, g *Node, w0 *World, o TreeOpts) *Tree {
 	}
 	for i := 0; i < n; i++ {
 		parent := -1
-		if i > 0 {
+		if i > 0 && o.Compete {
+			// competing branches: mostly extend one of the current tips (so that branches grow side by side and
+			// overtake each other), sometimes fork from an earlier block
+			isParent := map[int]bool{}
+			for _, b := range tr.Blocks {
+				isParent[b.Parent] = true
+			}
+			var tips []int
+			for _, b := range tr.Blocks {
+				if !isParent[b.Idx] {
+					tips = append(tips, b.Idx)
+				}
+			}
+			if len(tips) < 3 && rapid.IntRange(0, 9).Draw(t, "fork") < 3 {
+				parent = rapid.IntRange(-1, i-1).Draw(t, "parent")
+			} else {
+				parent = rapid.SampledFrom(tips).Draw(t, "tip")
+			}
+		} else if i > 0 {
 			if o.Linear || rapid.IntRange(0, 9).Draw(t, "extend") < 6 {
 				parent = i - 1
 			} else {
